@@ -53,7 +53,7 @@ class Gen:
         """Declarations of the other variable kinds of the translator's dialect (#Variable - element-or-set, split by the
         converter -, #ElementVariable, #SetVariable, #Symbol) and |- axioms over them.  The goal's proof does not use them;
         they exercise the converter's scope handling and are exported with the theory."""
-        r=self.rnd
+        r=self.rnd; self.extra_axioms=[]; self.kinds={}
         amb=r.sample(['xX','yY','zZ'],r.randint(1,3)); ev=['x','y'][:r.randint(0,2)]; sv=['X'][:r.randint(0,1)]
         sym=r.random()<0.5
         consts=['#Variable','#ElementVariable','#SetVariable','#Symbol']
@@ -76,7 +76,11 @@ class Gen:
                 t=('\\imp',self.rterm(1,amb),self.rterm(1,amb+r.sample(others,1)))
             else:
                 t=self.rterm(2,amb+r.sample(others,r.randint(0,2)))
-            ax.append('xax-%d $a |- %s $.'%(i,tstr(t)))
+            ax.append('xax-%d $a |- %s $.'%(i,tstr(t))); self.extra_axioms.append(('xax-%d'%i,t))
+        for v in amb: self.kinds[v]='amb'
+        for v in ev: self.kinds[v]='e'
+        for v in sv: self.kinds[v]='s'
+        if sym: self.kinds['sg0']='sym'
         return consts,L,ax
     def rterm(self,d,leaves,allow_not=None):
         r=self.rnd
